@@ -16,7 +16,7 @@ import sympy as sp
 import z3
 
 from pyvc import loader, symx
-from pyvc.core import Refuted
+from pyvc.core import Refuted, real_self
 from pyvc.npx import X, exact, val, vals, xarr
 from pyvc.symx import AV, CallbackRaised, Explorer, zv
 
@@ -119,7 +119,7 @@ def _newton(chk):
             return stepper
 
         hooks = {"accepted": []}
-        self = _Obj(_stepper_factory=factory)
+        self = real_self(nb._NewtonBackend, _stepper_factory=factory)
         self._compute_residual = types.MethodType(bb._CorrectorBackend._compute_residual, self)
         self._compute_norm = types.MethodType(bb._CorrectorBackend._compute_norm, self)
         self._compute_jacobian = lambda x, rf, jf, fd: jac(x)
@@ -188,7 +188,8 @@ def _newton(chk):
             tol = ctx.real("tol")
             res = ctx.ufun("residual", ["vec"], "vec")
             nrm = ctx.ufun("norm", ["vec"], "real")
-            self = _Obj(_stepper_factory=lambda a, b, c: (lambda x, d, n: (ctx.fresh("xn", "vec"), ctx.fresh("rn", "real"), 1.0)))
+            self = real_self(nb._NewtonBackend, _stepper_factory=lambda a, b, c: (
+                lambda x, d, n: (ctx.fresh("xn", "vec"), ctx.fresh("rn", "real"), 1.0)))
             self._compute_residual = lambda x, f: f(x)
             self._compute_norm = lambda r, f: f(r)
             self._compute_jacobian = lambda *a: ctx.fresh("J", "vec")
@@ -292,7 +293,8 @@ def _armijo(chk):
                 md = None
             else:
                 md = float("inf")
-            self = _Obj(residual_fn=res, norm_fn=nrm, max_delta=md, alpha_reduction=red, min_alpha=mina, armijo_c=c)
+            self = real_self(ar._ArmijoLineSearch, residual_fn=res, norm_fn=nrm, max_delta=md, alpha_reduction=red,
+                             min_alpha=mina, armijo_c=c)
             holder.update(current_norm=cur, res=res, nrm=nrm, x0=x0, min_alpha=mina)
             ctx.reached("armijo: precondition satisfiable")
             try:
@@ -366,7 +368,8 @@ def _armijo(chk):
             red, mina, c = ctx.real("alpha_reduction"), ctx.real("min_alpha"), ctx.real("armijo_c")
             ctx.assume(z3.And(zv(red) > 0, zv(red) < 1, zv(mina) > 0, zv(mina) <= 1, zv(c) > 0, zv(c) <= 1,
                               zv(cur) >= 0), silent=True)
-            self = _Obj(residual_fn=res, norm_fn=nrm, max_delta=None, alpha_reduction=red, min_alpha=mina, armijo_c=c)
+            self = real_self(ar._ArmijoLineSearch, residual_fn=res, norm_fn=nrm, max_delta=None, alpha_reduction=red,
+                             min_alpha=mina, armijo_c=c)
             holder.update(current_norm=cur, res=res, nrm=nrm, x0=x0, min_alpha=mina)
             try:
                 x, n, a = call(self, x0=x0, delta=delta, current_norm=cur)
